@@ -553,6 +553,9 @@ struct BitsDriver : DriverBase<BitsDriver<B, W, IsBitset>> {
         M const before = model[a];
         ctx.log.kv("form", form);
         unsigned long long const ull = ull_from(st);
+        // every fourth integer construction passes a negative value of a narrow signed type
+        int const negKind = static_cast<int>(st.k[1] % 3);
+        int const negArg  = (form == 1 && st.k[0] % 4 == 0) ? -1 - static_cast<int>(st.k[1] % 100) : 0;
         // string forms (bitset only)
         size_t len  = static_cast<size_t>(st.k[0] % (W + 3));
         size_t spos = static_cast<size_t>(st.k[1] % (len + 1));
@@ -577,6 +580,17 @@ struct BitsDriver : DriverBase<BitsDriver<B, W, IsBitset>> {
             SIM_COUNT("reach.bitset_string_with_folding_traits");
         }
         ctx.log.kv("folded", folded);
+        // characters OUTSIDE the window [spos, spos + n) are nobody's business: neither std::bitset nor a contract may
+        // look at them (the text may be a field of a longer record)
+        if (form == 3 && sn != static_cast<size_t>(-1) && st.flt == 0 && st.v[2] % 3 == 0) {
+            size_t const wend = spos + std::min(sn, len - spos);
+            for (size_t i = 0; i < len; ++i) {
+                if (i < spos || i >= wend) {
+                    text[i] = (i % 2 == 0) ? 'x' : ';';
+                }
+            }
+            SIM_COUNT("reach.bitset_string_with_other_characters_outside_the_window");
+        }
         bool bad = false;
         bool const posBeyond = form == 3 && st.flt != 0 && misuse && st.k[2] % 10 >= 5;
         if (posBeyond) {
@@ -629,7 +643,19 @@ struct BitsDriver : DriverBase<BitsDriver<B, W, IsBitset>> {
         g_crash.stepClass = ctx.stepClass;
         auto out = guarded(true, [&] {
             switch (form) {
-            case 1: made = new (mem) B(ull); break;
+            case 1:
+                if (negArg != 0) {
+                    // a negative value of a narrow signed type: converted to unsigned long long (sign-extended), as by
+                    // std::bitset's constructor
+                    switch (negKind) {
+                    case 0: made = new (mem) B(static_cast<int>(negArg)); break;
+                    case 1: made = new (mem) B(static_cast<short>(negArg)); break;
+                    default: made = new (mem) B(static_cast<signed char>(negArg)); break;
+                    }
+                } else {
+                    made = new (mem) B(ull);
+                }
+                break;
             case 2: made = new (mem) B(static_cast<B const&>(*obj[b])); break;
             case 3:
                 if constexpr (IsBitset) {
@@ -689,7 +715,7 @@ struct BitsDriver : DriverBase<BitsDriver<B, W, IsBitset>> {
         }
         M& m = model[a];
         switch (form) {
-        case 1: m = M(ull); break;
+        case 1: m = negArg != 0 ? M(static_cast<unsigned long long>(static_cast<long long>(negArg))) : M(ull); break;
         case 2: m = model[b]; break;
         case 3:
             if (folded) {
